@@ -83,7 +83,13 @@ def present(rng, pr, nicks=False):
             d[tuple(rk)] = d.get(tuple(rk), 0) + m
         lines2 = [(m, list(rk)) for rk, m in d.items()]
     nc = pr['nc']
-    nick = ['n%s' % chr(96 + c) for c in range(1, nc + 1)] if nicks else None
+    # nicknames: anything that is not all digits is a nickname -- also look-alikes that int() would take for a number
+    style = rng.choice(['alpha', 'alpha', 'under', 'plus'])
+    nick = None
+    if nicks:
+        nick = {'alpha': ['n%s' % chr(96 + c) for c in range(1, nc + 1)],
+                'under': ['0_%d' % (nc + 1 - c) for c in range(1, nc + 1)],
+                'plus': ['+%d' % (c % nc + 1) for c in range(1, nc + 1)]}[style]
 
     def ref(c):
         return nick[c - 1] if nick and rng.random() < 0.7 else str(c)
@@ -128,7 +134,9 @@ def present(rng, pr, nicks=False):
         s += sep() + '%d %s 0' % (m, ' '.join('='.join(ref(c) for c in g) for g in r))
     s += sep() + '0' + sep()
     s += sep().join('"%s"' % drive.cname(c) for c in range(1, nc + 1))
-    s += sep() + '"t"\n'
+    # a quoted string may continue over several lines; inside it # and /* are ordinary characters
+    title = pr.get('title', 't')
+    s += sep() + '"%s"\n' % ''.join(rng.choice(['\n', ' \n ', ' ']) if ch == ' ' else ch for ch in title)
     return s
 
 
@@ -138,6 +146,7 @@ def gen_c10(rng, n, rules):
         pr = gen.randprofile(rng, maxc=6, maxlines=7, maxm=4, wd=True, und=(rng.random() < 0.3), eq=(i % 3 == 0))
         if pr['eqlines'] and rng.random() < 0.5:
             pr['eqlines'].append((rng.randint(2, 5), [rng.sample(range(1, pr['nc'] + 1), min(3, pr['nc']))]))
+        pr['title'] = rng.choice(['t', 'Council election, ward #7 /* north', 'An election #2 of 3', 'a /*b c*/ d'])
         base = drive.mkblt(**pr)
         pres = present(rng, pr, nicks=rng.random() < 0.5)
         for rule in rules:
@@ -181,8 +190,13 @@ def deleted(pr):
 def gen_c11(rng, n, rules):
     out = []
     for i in range(n):
-        shape = rng.choice(['random', 'random', 'tie', 'prior', 'prior'])
-        pr = gen.randprofile(rng, maxc=6, maxlines=7, maxm=4, wd=True, und=False, wdmin=rng.choice([0, 0, 2, 3]), full=rng.random() < 0.5) if shape == 'random' else (gen.tieprofile(rng) if shape == 'tie' else gen.priorprofile(rng))
+        shape = rng.choice(['random', 'random', 'tie', 'prior', 'prior', 'sparse', 'sparse', 'bullet', 'surplustie', 'reversal'])
+        if shape == 'random':
+            pr = gen.randprofile(rng, maxc=6, maxlines=7, maxm=4, wd=True, und=False, wdmin=rng.choice([0, 0, 2, 3]), full=rng.random() < 0.5)
+        else:
+            pr = dict(getattr(gen, shape + 'profile')(rng))
+            pr['undeclared'] = []
+            pr['eqlines'] = []
         base = drive.mkblt(**pr)
         pr3, pmap, names3 = permuted(rng, pr)
         permd = drive.mkblt(**pr3)     # names are c<newid>: the harness parses subjects from names, the map carries identity
@@ -191,7 +205,11 @@ def gen_c11(rng, n, rules):
             pr4, dmap = deleted(pr)
             deld = drive.mkblt(**pr4)
         for rule in rules:
-            for opts, lp in gen.configs(rule, rng):
+            cfgs = gen.configs(rule, rng)
+            if rule == 'wigm' and shape in ('sparse', 'bullet', 'tie'):
+                # zero-vote candidates: the batch-defeat option is where their order matters
+                cfgs = cfgs + [(dict(rule='wigm', arithmetic='fixed', precision=3, defeat_batch='zero'), None)]
+            for opts, lp in cfgs:
                 A, B = run2(base, opts, lp, permd, opts, lp)
                 if A['outcome'] == 'reject' or B['outcome'] == 'reject':
                     continue
@@ -270,9 +288,11 @@ def project_rational(T, S):
 def gen_c13c(rng, n):
     out = []
     for i in range(n):
-        pr = gen.randprofile(rng, maxc=5, maxlines=6, maxm=3, wd=True, eq=False)
+        pr = gen.randprofile(rng, maxc=5, maxlines=6, maxm=3, wd=True, eq=(i % 3 == 1))      # equal rankings: meek and warren only
         blt = drive.mkblt(**pr)
         for rule in ('wigm', 'meek', 'warren'):
+            if pr['eqlines'] and rule == 'wigm':
+                continue
             p, g = rng.choice([(2, 3), (3, 3), (2, 4), (3, 2)])
             og = dict(rule=rule, arithmetic='guarded', precision=p, guard=g)
             orr = dict(rule=rule, arithmetic='rational')
